@@ -101,6 +101,9 @@ def _bytes_of(x):
     return [(np.asarray(l).dtype.str, np.asarray(l).shape, np.asarray(l).tobytes()) for l in jax.tree_util.tree_leaves(x)]
 
 
+SAMPLED = [0]  # batches actually drawn with a real generator in this process (vacuity guard)
+
+
 class Family:
     """How to drive one adapter type."""
 
@@ -151,7 +154,8 @@ def cover_family(G, fam: Family, seed):
             o = copy.deepcopy(fam.get(ad))
             try:
                 outs.append(("ok", _bytes_of(fam.sample(o, ad, np.random.default_rng(seed + 17)))))
-            except Exception as e:
+                SAMPLED[0] += 1
+            except Exception as e:  # nothing to sample from (empty buffer, no admissible start); the guard below makes sure batches ARE drawn
                 outs.append(("raise", type(e).__name__))
         if not (outs[0] == outs[1] == outs[2]):
             raise Mismatch(f"after {op}: batches sampled with identical generator state differ between original and reloaded buffer", code="sample_differs")
@@ -167,6 +171,82 @@ def cover_family(G, fam: Family, seed):
         return pa
 
     return graph.cover(G, G.roots()[0], factory, step, project, clone=clone)
+
+
+def walk_family(G, fam: Family, seed, n_walks, max_len):
+    """Behaviours of the same graph on a LIVE original that is never copied.
+
+    cover_family() reaches every state with deep copies of the original; copy.deepcopy goes through the same
+    __reduce_ex__ / __getstate__ / __setstate__ protocol as pickle, so a loader that rebuilds part of the state
+    differently (another iteration order, a recomputed field) treats the "original" lineage alike and the difference
+    between an object that was never saved and its reloaded copy never shows.  Here the original is constructed once
+    and only ever driven through its public methods; at chosen points it is pickled and the reloaded copy follows in
+    lock-step.  Batches are drawn from the original itself (a real generator; at the end of the walk for buffers whose
+    sampling records state, at every step otherwise)."""
+    import random
+
+    rnd = random.Random(seed + 4242)
+    root = G.roots()[0]
+    violations = []
+    steps = 0
+    sample_mutates = not fam.name.startswith(("ReplayBuffer", "MultiTask[ReplayBuffer]"))
+    for w in range(n_walks):
+        a = fam.make()
+        c = None
+        k = root
+        path = []
+
+        def both_sample(tag):
+            if c is None:
+                return
+            outs = []
+            for ad in (a, c):
+                try:
+                    outs.append(("ok", _bytes_of(fam.sample(fam.get(ad), ad, np.random.default_rng(seed + 17)))))
+                    SAMPLED[0] += 1
+                except Exception as e:  # nothing to sample from
+                    outs.append(("raise", type(e).__name__))
+            if outs[0] != outs[1]:
+                raise Mismatch(f"{tag}: batches drawn with identical generator state differ between the never-saved original and its reloaded copy", code="live:sample_differs")
+
+        try:
+            for i in range(max_len):
+                es = G.out.get(k, ())
+                if not es:
+                    break
+                moves = [e for e in es if e[3] != k] or list(es)
+                op, args, exp, k2 = rnd.choice(moves if rnd.random() < 0.8 else list(es))
+                path.append({"op": op, "args": args, "exp": exp})
+                if c is None or rnd.random() < 0.5:
+                    before = raw(fam.get(a))
+                    c = copy.deepcopy(a)  # the adapter's own bookkeeping; the buffer inside is replaced by the reloaded one
+                    fam.set(c, reload(fam.get(a)))
+                    if raw(fam.get(a)) != before:
+                        raise Mismatch("saving modified the original object", code="live:save_modifies_original")
+                    d = diff_raw(before, raw(fam.get(c)))
+                    if d:
+                        raise Mismatch(f"reloaded object differs from the never-saved original: {d}", code="live:reload_differs:" + d.split(":")[0])
+                for who, ad in (("original", a), ("reloaded", c)):
+                    try:
+                        fam.step(ad, op, args, exp, G.state[k], G.state[k2])
+                    except Mismatch as m:
+                        raise Mismatch(f"[{who}] {m.what}", code=("live:reloaded:" if who != "original" else "live:original:") + m.code)
+                d = diff_raw(raw(fam.get(a)), raw(fam.get(c)))
+                if d:
+                    raise Mismatch(f"after {op} the reloaded object differs from the never-saved original: {d}", code="live:continuation_differs:" + d.split(":")[0])
+                pa = fam.project(a)
+                if graph.canon(pa) != k2 or graph.canon(fam.project(c)) != k2:
+                    raise Mismatch("state after step differs from model", got=pa, want=G.state[k2])
+                if not sample_mutates:
+                    both_sample(f"after {op}")
+                steps += 1
+                k = k2
+            both_sample("at the end of the history")
+        except Mismatch as m:
+            violations.append({"what": m.what + f" (live history of {len(path)} calls)", "code": m.code, "detail": m.detail, "path": list(path)})
+        except Exception as ex:
+            violations.append({"what": f"exception {type(ex).__name__}: {str(ex)[:160]} (live history of {len(path)} calls)", "code": f"live:exception:{type(ex).__name__}", "detail": {}, "path": list(path)})
+    return {"walks": n_walks, "steps": steps, "violations": violations}
 
 
 def _graph(module, consts, view=None):
@@ -188,10 +268,11 @@ def buffer_job(which, args, seed):
         fam = Family(
             f"{cls}", lambda: c02.RingAdapter(cls, prof, n), c02.ring_step, c02.ring_project,
             lambda ad: ad.buf, lambda ad, x: setattr(ad, "buf", x),
-            lambda o, ad: _ring_sample(o),
+            lambda o, ad, rng: _ring_sample(o, rng),
         )
     elif which == "mt":
-        cls, k, n, m = args
+        cls, k, n, m = args[:4]
+        tm = c02.SPARSE_IDS[:k] if len(args) > 4 and args[4] == "sparse" else None
         g, G = _graph("MultiTask", dict(K=k, N=n, MaxAdds=m, MaxBatch=1))
         prof = bufkit.default_profile()
 
@@ -199,21 +280,26 @@ def buffer_job(which, args, seed):
             ad.mt = x
             ad.inner.buf = x.buffers[0]
 
-        fam = Family(f"MultiTask[{cls}]", lambda: c02.MTAdapter(cls, prof, n, k), c02.mt_step, c02.mt_project, lambda ad: ad.mt, set_mt, lambda o, ad: _ring_sample(o))
+        fam = Family(f"MultiTask[{cls}]" + ("[sparse task ids]" if tm else ""), lambda: c02.MTAdapter(cls, prof, n, k, tm), c02.mt_step, c02.mt_project, lambda ad: ad.mt, set_mt, lambda o, ad, rng: _ring_sample(o, rng))
     elif which == "prio":
         kind, k, n, m, b, strat = args
         g, G = _graph("RingPrio", dict(K=k, N=n, MaxAdds=m, PrioVals={1, 3}, MaxBatch=b, STRAT=strat), view="View")
         fam = Family(f"{kind}{'[multi-task]' if k > 1 else ''}", lambda: c08.PrioAdapter(kind, n, k), c08.step, c08.project,
-                     lambda ad: ad.obj, lambda ad, x: setattr(ad, "obj", x), lambda o, ad: _ring_sample(o))
+                     lambda ad: ad.obj, lambda ad, x: setattr(ad, "obj", x), lambda o, ad, rng: _ring_sample(o, rng))
     elif which == "subtraj":
         n, h, m, prio, b = args
         g, G = _graph("Subtraj", dict(N=n, H=h, MaxAdds=m, PRIO=prio, PrioVals={1, 3} if prio else {1}, MaxBatch=b))
         fam = Family("SubtrajectoryReplayBuffer" + ("PER" if prio else ""), lambda: sb.SubtrajAdapter(n, h, prio), sb.step, sb.project,
-                     lambda ad: ad.buf, lambda ad, x: setattr(ad, "buf", x), lambda o, ad: o.sample_batch(3, ad.h, True, np.random.default_rng(7)))
+                     lambda ad: ad.buf, lambda ad, x: setattr(ad, "buf", x), lambda o, ad, rng: o.sample_batch(3, ad.h, True, rng))
     else:  # pragma: no cover
         raise AssertionError(which)
     out["tlc"].append({"name": f"{which} {args} graph generation", "distinct": g.distinct, "generated": g.generated, "depth": g.depth, "wall_s": round(g.wall_s, 1)})
+    SAMPLED[0] = 0
     res = cover_family(G, fam, seed)
+    wres = walk_family(G, fam, seed, 40, 10)
+    out["sampled"] = SAMPLED[0]
+    out["live_steps"] = wres["steps"]
+    res["violations"] = res["violations"] + wres["violations"]
     out["edges"] = res["edges_tested"]
     out["nontrivial"] = sum(1 for k_, es in G.out.items() for e in es if k_ != G.roots()[0])
     for v in res["violations"]:
@@ -223,8 +309,7 @@ def buffer_job(which, args, seed):
     return out
 
 
-def _ring_sample(o):
-    rng = np.random.default_rng(5)
+def _ring_sample(o, rng):
     return o.sample_batch(4, rng)
 
 
@@ -289,7 +374,10 @@ def modules_part(rep, quick):
     os.makedirs(tmp, exist_ok=True)
     n = 0
     try:
-        zoo = module_zoo(rep.seed)
+        zoo = dict(module_zoo(rep.seed))
+        from . import c19_modules
+
+        zoo.update(c19_modules.deep_zoo())
         ck = OrbaxCheckpointer(checkpoint_dir=os.path.join(tmp, "orbax"))
         ck.define_experiment("Env-v0", "c19", {})
         for name, (make, call) in zoo.items():
@@ -420,6 +508,8 @@ def run(rep):
         if not quick:
             jobs.append(("ring", (cls, 3, 7), rep.seed))
     jobs.append(("mt", ("ReplayBuffer", 2, 2, 4), rep.seed))
+    # a ten-task buffer of which tasks 8, 0, 9 become active in that order (iteration order of the active set after a reload)
+    jobs.append(("mt", ("ReplayBuffer", 3, 2, 3, "sparse"), rep.seed))
     jobs.append(("prio", ("LAP", 1, 2, 4, 1, False), rep.seed))
     jobs.append(("prio", ("PER", 1, 2, 4, 2, True), rep.seed))
     jobs.append(("prio", ("LAP", 2, 2, 3, 1, False), rep.seed))
@@ -429,10 +519,14 @@ def run(rep):
     if not quick:
         # sized so that the lock-step replay (three objects, a pickle round trip and two deep copies per transition) stays
         # within the thorough budget: ~10 ms per transition
-        jobs += [("mt", ("LAP", 2, 2, 4), rep.seed), ("prio", ("PER", 2, 2, 3, 1, True), rep.seed), ("prio", ("LAP", 1, 3, 4, 2, False), rep.seed),
+        jobs += [("mt", ("LAP", 2, 2, 4), rep.seed), ("mt", ("LAP", 3, 2, 4, "sparse"), rep.seed), ("prio", ("PER", 2, 2, 3, 1, True), rep.seed), ("prio", ("LAP", 1, 3, 4, 2, False), rep.seed),
                  ("subtraj", (5, 3, 7, False, 1), rep.seed), ("subtraj", (4, 2, 4, True, 1), rep.seed)]
     ev = nt = 0
     for o in par.pmap(buffer_job, jobs, procs=6):
+        if not o.get("sampled"):
+            raise tlc.MachineryError(f"no batch was ever drawn with a real generator in a buffer job (vacuous batch comparison): {o.get('sample')}")
+        rep.extra["batches_compared"] = rep.extra.get("batches_compared", 0) + 3 * o["sampled"] // 3
+        rep.extra["live_history_steps"] = rep.extra.get("live_history_steps", 0) + o.get("live_steps", 0)
         res = sb.merge(rep, o)
         if res:
             ev += res[0]
@@ -447,6 +541,19 @@ def run(rep):
     if diff_raw(raw(ad.buf), raw(bad)) is None:
         raise tlc.MachineryError("binding canary: raw-state comparison misses a changed field")
     n_mod = modules_part(rep, quick)
+    # function approximators as a state machine: several snapshots, several restored objects, shared template (PersistModules.tla)
+    from . import c19_modules
+
+    tmpg = os.path.join(tlc.OUT, "tmp", f"c19g-{os.getpid()}")
+    os.makedirs(tmpg, exist_ok=True)
+    try:
+        zoo = dict(module_zoo(rep.seed))
+        zoo.update(c19_modules.deep_zoo())
+        g_steps, g_seen, g_edges = c19_modules.run_part(rep, quick, zoo, {"digest": digest, "one_step": _one_step, "bytes_of": _bytes_of}, tmpg)
+    finally:
+        shutil.rmtree(tmpg, ignore_errors=True)
+    rep.extra["module_graph"] = {"real_steps": g_steps, "graph_edges_exercised": g_seen, "graph_edges": g_edges, "methods": list(c19_modules.METHODS)}
+    n_mod += g_steps
     rep.traces += n_mod
     rep.evaluations = ev + n_mod
     rep.distinct = nt + n_mod
@@ -454,7 +561,8 @@ def run(rep):
     rep.rule = ("every transition of the TLC state graphs of Ring/MultiTask/RingPrio/Subtraj is replayed with a pickle save+reload inserted before it "
                 "(three objects in lock-step); non-trivial = pre-state is not the empty initial state; plus one save/restore round trip per module type x parameter variant x method")
     rep.assumptions += ["cross-version / cross-device portability not covered", "module parameters: seeded random dyadic perturbations of the initialisation",
-                        "Orbax restore uses the abstract state of a freshly constructed module of the same architecture"]
+                        "Orbax restore uses the abstract state of a freshly constructed module of the same architecture, or the library's restore_checkpoint with one template module shared by all restores of a history",
+                        "module histories: PersistModules.tla behaviours of <= 8 steps (<= 3 optimiser steps, 2 paths, 2 restored objects alive), sampled walks preferring unexercised edges"]
 
 
 def replay(path, rep):
